@@ -1,4 +1,5 @@
 import UberjobModel.Lemmas.EnginePath
+import UberjobModel.Lemmas.EngineComplete
 import UberjobModel.Lemmas.GraphWF
 import UberjobModel.Lemmas.EngineExamples
 /-!
@@ -59,6 +60,72 @@ theorem C04_only_graph_nodes {g : Graph} (hg : g.WF) {cfg : Cfg} {s : St} (h : R
     all_goals
       repeat' split at hs
       all_goals first | (cases hs; exact ih hi' h4) | cases hs
+
+/-- The graph is acyclic: some rank strictly increases along every edge (what `assert_acyclic` guarantees, C07). -/
+def Graph.Ranked (g : Graph) (rank : Nat → Nat) : Prop := ∀ x y, y ∈ g.succs x → rank x < rank y
+
+open Uberjob.Gen.Engine in
+/-- **A run that returns normally has executed exactly the nodes of the graph** (each once, by `C04_once`):
+    no failure and no interrupt ⇒ every node of an acyclic graph was begun and completed. -/
+theorem C04_exact {g : Graph} (hg : g.WF) {cfg : Cfg} (hw : 1 ≤ cfg.workers) {s : St} (hr : Reach g cfg s)
+    {rank : Nat → Nat} (hrank : g.Ranked rank) (hc : s.coord = .returned false) (hf : s.failed = []) :
+    (∀ x, x ∈ s.begun ↔ x ∈ g.nodes) ∧ (∀ x, x ∈ s.okd ↔ x ∈ g.nodes) := by
+  have hi := inv_reach hg hr
+  have h4 := inv4_reach hg hw hr
+  have hskip : s.skipped = [] := by
+    cases hs : s.skipped with
+    | nil => rfl
+    | cons a t =>
+      rcases h4.skipWhy (by rw [hs]; simp) with h1 | h1
+      · exact absurd hf h1
+      · rw [hc] at h1; cases h1
+  obtain ⟨q1, q2, _⟩ := h4.quiet (by rw [hc]; rfl)
+  -- whatever was enqueued has completed OK
+  have enq_okd : ∀ y, y ∈ s.enq → y ∈ s.okd ∧ y ∈ s.retired := by
+    intro y hy
+    have hpl := hi.place y
+    have hone := hi.once y
+    have hpos := List.count_pos_iff.mpr hy
+    have hq0 : s.queue.count (Item.node y) = 0 := List.count_eq_zero.mpr (q1 y)
+    have hw0 : s.ws.countP (holds y) = 0 := by
+      apply List.countP_eq_zero.mpr
+      intro v hv; simp [holds, q2 v hv]
+    simp only [cnt, qCount, wCount, rCount] at hpl
+    have hret : y ∈ s.retired := List.count_pos_iff.mp (by omega)
+    rcases h4.retWhy y hret with h1 | h1 | h1
+    · exact ⟨h1, hret⟩
+    · rw [hf] at h1; cases h1
+    · rw [hskip] at h1; cases h1
+  -- every node is enqueued (induction along the rank)
+  have key : ∀ n y, rank y ≤ n → y ∈ g.nodes → y ∈ s.enq := by
+    intro n
+    induction n with
+    | zero =>
+      intro y hy hyn
+      have hp : g.preds y = [] := by
+        cases hpy : g.preds y with
+        | nil => rfl
+        | cons p t =>
+          have := hrank p y ((hg.adj p y).mpr (by rw [hpy]; simp)); omega
+      apply h4.srcEnq
+      simp [sources, hyn, Graph.predCount, hp, classify_source_iff]
+    | succ n ih =>
+      intro y hy hyn
+      cases hpy : g.preds y with
+      | nil =>
+        apply h4.srcEnq
+        simp [sources, hyn, Graph.predCount, hpy, classify_source_iff]
+      | cons p0 t =>
+        apply h4.relEnq y (by rw [hpy]; simp)
+        intro p hp
+        have hsp : y ∈ g.succs p := (hg.adj p y).mpr hp
+        have hlt := hrank p y hsp
+        have hpn : p ∈ g.nodes := (hg.succsNodes p y hsp).1
+        obtain ⟨hpo, hpr⟩ := enq_okd p (ih p (by omega) hpn)
+        exact h4.okdRel p hpr hpo y hsp
+  have all_okd : ∀ y, y ∈ g.nodes → y ∈ s.okd := fun y hy => (enq_okd y (key (rank y) y (Nat.le_refl _) hy)).1
+  refine ⟨fun x => ⟨C04_only_graph_nodes hg hr x, fun hx => hi.okBegun x (all_okd x hx)⟩,
+          fun x => ⟨fun hx => C04_only_graph_nodes hg hr x (hi.okBegun x hx), all_okd x⟩⟩
 
 example : (run? diamond ⟨2, some 0⟩ (init diamond) diamondRun).map (·.enq) = some [0, 1, 2, 3] := by decide
 
